@@ -21,6 +21,10 @@ FLAVOURS = {
 FLAVOURS['untouched'] = ("This round asks for changes in code that no earlier tester has touched. Prefer to place each change in one of the following functions/methods "
     "WHEN it is relevant to the property (directly, or because the property's functions call it): " + os.environ.get('UNTOUCHED', '') +
     ". If none of these is relevant, pick any function that is not in the 'already delivered' list below. Small edits and added code are both fine.")
+FLAVOURS['cooperating'] = ("This round asks for changes made of TWO COOPERATING EDITS in different functions (or different branches), each of which looks correct and harmless when read alone - "
+    "a helper whose contract is changed slightly plus one caller that still assumes the old contract; a value now stored in a different unit/order/sign and one reader that was not updated; "
+    "a default argument changed in one place while another place relies on the old default; an invariant established in one method and silently relied on in another. "
+    "Every other caller / reader must keep working, so that ordinary use and the test suite see no difference.")
 flavour = FLAVOURS[os.environ.get('FLAVOUR', 'subtle')]
 print(f"""You are helping test a verification effort for the Python library svgpathtools (pure-Python SVG path geometry).
 A scratch git worktree of the library is at {wt} (package directory {wt}/svgpathtools, tests in {wt}/test).
